@@ -3,7 +3,7 @@
 From Coq Require Import Reals List Lra.
 From AhrsLib Require Import Base Rot.
 From AhrsGen Require Import C01gen_R.
-From AhrsProps Require Import C01_routes.
+From AhrsProps Require Import C01_routes C01_nonunit.
 Import ListNotations.
 Open Scope R_scope.
 
@@ -12,6 +12,13 @@ Theorem C01_routes_are_rotations : forall w x y z, w*w + x*x + y*y + z*z = 1 ->
   Forall (fun f => f w x y z = Val (Rspec [w;x;y;z])) routes /\ SO3 (Rspec [w;x;y;z]).
 Proof. intros w x y z H. split; [exact (all_routes_spec w x y z H)|exact (Rspec_SO3 w x y z H)]. Qed.
 Print Assumptions C01_routes_are_rotations.
+
+(* the same for ANY non-zero quaternion: every route normalises first, so it returns the matrix of q/|q|,
+   which is a unit quaternion (hence a proper rotation by the theorem above) *)
+Theorem C01_routes_normalise_first : forall w x y z, 0 < w*w + x*x + y*y + z*z ->
+  Forall (fun f => f w x y z = Val (Rspec (nq w x y z))) routes /\ qnorm2 (nq w x y z) = 1.
+Proof. intros w x y z H. split; [exact (all_routes_nz w x y z H)|exact (nq_unit w x y z H)]. Qed.
+Print Assumptions C01_routes_normalise_first.
 
 (* the array routes given N = 4 (square!) and N = 3 rows return, row by row, the textbook matrix of that row *)
 Theorem C01_batch_rows : forall w0 x0 y0 z0 w1 x1 y1 z1 w2 x2 y2 z2 w3 x3 y3 z3,
